@@ -22,7 +22,14 @@ def run_case(case, Ms=None, watch_globals=False):
     r.kw = kw
     r.pre = snap_teams(teams)
     r.pri = [[(s["mu"], s["sigma"], s["name"], s["id"]) for s in t] for t in r.pre]
-    r.obs = observe(model, "rate", teams, watch_globals=watch_globals, **kw)
+    if case.get("positional"):
+        # the same call written positionally: rate(teams, ranks, scores, tau, limit_sigma), trailing omitted arguments left out
+        order = ["ranks", "scores", "tau", "limit_sigma"]
+        last = max((i for i, k_ in enumerate(order) if k_ in kw), default=-1)
+        args = [kw.get(k_) for k_ in order[:last + 1]]
+        r.obs = observe(model, "rate", teams, *args, watch_globals=watch_globals)
+    else:
+        r.obs = observe(model, "rate", teams, watch_globals=watch_globals, **kw)
     r.exc = r.obs.exc
     r.res = None
     r.shape_err = None
